@@ -54,7 +54,7 @@ func selfCheckFunction(w *World, c *Contract, dir string, k int) selfResult {
 			args = append(args, v)
 			vc.Inputs = append(vc.Inputs, inputSym{p.Name(), p.Type(), v})
 		}
-		h0 := Heap{}
+		h0 := Heap{"#entry": "1"}
 		if c.Options["with-init"] {
 			e.runInit(fn.Pkg, h0)
 		}
@@ -63,7 +63,9 @@ func selfCheckFunction(w *World, c *Contract, dir string, k int) selfResult {
 			e.sc.assume(e.evalPred(w.Preds[c.Pkg+"."+cl.Pred], args, e.oldHeap, nil))
 		}
 		e.pure = true // no obligations
-		res = e.execFunction(fn, args, nil, "true", e.oldHeap.clone())
+		xh := e.oldHeap.clone()
+		delete(xh, "#entry")
+		res = e.execFunction(fn, args, nil, "true", xh)
 		e.pure = false
 		return true
 	}()
